@@ -12,7 +12,7 @@ import jax.numpy as jnp  # noqa: E402
 from jaxley.connect import connect as jx_connect  # noqa: E402
 
 from . import mech, snap  # noqa: E402
-from .driver import HarnessError, conform, exc_in_harness, exc_text, feq, quiet  # noqa: E402
+from .driver import HarnessError, conform, exc_in_harness, exc_text, feq, innermost_jaxley_frame, quiet, tracer_leak  # noqa: E402
 from .invariants import structural_invariants  # noqa: E402
 from .refmodule import Reject, Unspec, isnan  # noqa: E402
 from .seedtree import uval  # noqa: E402
@@ -330,7 +330,11 @@ def apply_op(w, op, index, check=True):
     else:
         if raised is not None:
             w.ref = ref_before
-            w.violate("unexpected_refusal", f"{op['op']} raised {exc_text(raised)}", index)
+            fr = innermost_jaxley_frame(raised)
+            leak = tracer_leak(w.m)
+            w.violate("unexpected_refusal", f"{op['op']} raised {exc_text(raised)}", index,
+                      {"exc": type(raised).__name__, "frame": fr[2] if fr else None, "leaked_tracer_in_jaxedges": leak,
+                       "signature_ok": bool(leak and type(raised).__name__ == "UnexpectedTracerError" and fr and fr[2] == "_jax_arrays_in_view")})
             w.stopped = f"op {index}: unexpected refusal"
             out["outcome"] = "unexpected_refusal"
         else:
@@ -351,8 +355,18 @@ def apply_op(w, op, index, check=True):
                     w.violate("tables_conform", f"after {op['op']}: " + "; ".join(d[:5]), index)
                     w.stopped = f"op {index}: tables diverged from the model"
                 d2 = structural_invariants(w.m)
-                if d2:
-                    w.violate("structural_invariant", f"after {op['op']}: " + "; ".join(d2[:5]), index)
+                dang = [x for x in d2 if x.startswith("dangling:")]
+                rest = [x for x in d2 if not x.startswith("dangling:")]
+                if dang and op["op"] == "delete_channel":
+                    # references to states of a channel that this call removed from the module: reported once, the
+                    # history stops (what integrate does with such a module is not defined)
+                    w.violate("structural_invariant", f"after {op['op']}: " + "; ".join(dang[:5]), index,
+                              {"dangling_after_delete_channel": True, "signature_ok": True})
+                    w.stopped = f"op {index}: dangling references after delete_channel"
+                elif dang:
+                    rest = dang + rest
+                if rest:
+                    w.violate("structural_invariant", f"after {op['op']}: " + "; ".join(rest[:5]), index)
     w.bump("op_" + op["op"])
     w.chain.add("op", {"op": op, "out": out, "tables": snap.digest(snap.snapshot(w.m)) if check else None})
     return out
